@@ -343,7 +343,7 @@ class Session(object):
             if obs[i].kind != 'cover':
                 needed.update(idxs)
         again = [j for j in sorted(needed) if jres[j][0] == 'unknown']
-        if again and len(again) <= 200:
+        if again and len(again) <= 32:
             out2 = solver_mod.solve_all(
                 [(j, jobs[j][1], want_models, False, True) for j in again])
             for idx, v, m, backend, secs, log in out2:
